@@ -243,6 +243,54 @@ pub fn run_cell(cell: &Cell, scratch: &Scratch) -> CellOut {
         for (qi, q) in queries.iter().enumerate() {
             out.searches += 1;
             let res = b.knn_search(q, K).unwrap_or_default();
+            // C06's soundness oracle on these LARGE collections too (above 1024 vectors the
+            // search is no longer exhaustive, and the tombstoned states oversample): at most k
+            // distinct live documents, true distances, non-decreasing order
+            {
+                let mut seen = BTreeSet::new();
+                let mut prev = f32::NEG_INFINITY;
+                let mut bad: Option<String> = None;
+                if res.len() > K {
+                    bad = Some(format!("{} results for k={K}", res.len()));
+                }
+                for r in &res {
+                    let Some(v) = live.get(r.doc_id as usize).filter(|x| x.0 == r.doc_id).map(|x| &x.1) else {
+                        bad = Some(format!("document {} is not live", r.doc_id));
+                        break;
+                    };
+                    if !seen.insert(r.doc_id) {
+                        bad = Some(format!("document {} twice", r.doc_id));
+                        break;
+                    }
+                    let td = match metric {
+                        DistanceMetric::Euclidean => tdist(metric, q, v).sqrt(),
+                        DistanceMetric::InnerProduct => {
+                            let dot: f64 = q.iter().zip(v).map(|(a, b)| (*a as f64) * (*b as f64)).sum();
+                            1.0 - dot
+                        }
+                        _ => tdist(metric, q, v),
+                    };
+                    // accept either convention the engine documents for the metric (squared / plain L2, 1 - dot / 1 - cos)
+                    let alt = match metric {
+                        DistanceMetric::Euclidean => tdist(metric, q, v),
+                        _ => tdist(DistanceMetric::Cosine, q, v),
+                    };
+                    let d = r.distance as f64;
+                    let ok = (d - td).abs() <= 1e-3 * td.abs().max(1.0) || (d - alt).abs() <= 1e-3 * alt.abs().max(1.0);
+                    if !ok {
+                        bad = Some(format!("document {} reported at {d}, true distance {td} (or {alt})", r.doc_id));
+                        break;
+                    }
+                    if r.distance < prev {
+                        bad = Some(format!("distance {} after {}", r.distance, prev));
+                        break;
+                    }
+                    prev = r.distance;
+                }
+                if let Some(b) = bad {
+                    out.viol.push((format!("C16|unsound-result|{route}|{}", cell.metric), json!({"engine":"seqmc","check":"C16","cell": cell, "route": route, "query": qi, "detail": b})));
+                }
+            }
             hit += res.iter().filter(|r| truth[qi].contains(&r.doc_id)).count();
             first.push(res.iter().map(|r| (r.doc_id, r.distance.to_bits())).collect());
         }
@@ -396,7 +444,7 @@ pub fn run(tier: &str, replay: Option<&str>) -> i32 {
     }
     ev.set("evaluations", searches + cancelled_searches);
     ev.set("distinct_nontrivial", outs.iter().map(|o| o.recalls.len() as u64).sum::<u64>());
-    ev.set("rule", format!("fixed grid, fixed seeds: family {{uniform sphere, Gaussian clusters, low-dimensional manifold, tight, well separated Gaussian clusters with cluster-major document ids (graph built cluster by cluster, sizes above the 1024-vector exhaustive-ef regime)}} x metric x dimension x size ({} cells) x build route {{online inserts in a seeded shuffled arrival order, bulk build (id order), 60 % delete + forced tombstone compaction, snapshot + recovery rebuild, and the heavy-delete route BEFORE compaction with 30 % / 45 % / 60 % of the slots tombstoned}}, 200 queries each at the default index parameters; recall@10 against an f64 brute force must be >= 0.80, the recall of two routes of one cell must not differ by more than 0.10, and every query repeated from another thread must return bit-identical distances and the same documents except among exactly tied distances; and (cancellation slice, --cfg kyrodb_verif hook) for every cancellation point of every search of a small index grid, the query repeated twice right after the cancelled search on the same thread returns exactly the baseline answer. distinct_nontrivial = (cell, route) pairs built and measured", cs.len()));
+    ev.set("rule", format!("fixed grid, fixed seeds: family {{uniform sphere, Gaussian clusters, low-dimensional manifold, tight, well separated Gaussian clusters with cluster-major document ids (graph built cluster by cluster, sizes above the 1024-vector exhaustive-ef regime)}} x metric x dimension x size ({} cells) x build route {{online inserts in a seeded shuffled arrival order, bulk build (id order), 60 % delete + forced tombstone compaction, snapshot + recovery rebuild, and the heavy-delete route BEFORE compaction with 30 % / 45 % / 60 % of the slots tombstoned}}, 200 queries each at the default index parameters; recall@10 against an f64 brute force must be >= 0.80, every result list must be sound (at most k distinct live documents, true distances, non-decreasing order — the C06 oracle on collections above the exhaustive-search regime), the recall of two routes of one cell must not differ by more than 0.10, and every query repeated from another thread must return bit-identical distances and the same documents except among exactly tied distances; and (cancellation slice, --cfg kyrodb_verif hook) for every cancellation point of every search of a small index grid, the query repeated twice right after the cancelled search on the same thread returns exactly the baseline answer. distinct_nontrivial = (cell, route) pairs built and measured", cs.len()));
     ev.set("samples", json!(table.iter().take(3).collect::<Vec<_>>()));
     ev.set("exhaustive", true);
     ev.set("grid_cells", cs.len() as u64);
